@@ -15,15 +15,15 @@ def add(pid, technique, text, note, engine="hypothesis+enumeration", ready=True)
 
 
 add("C01", "model-based testing: generated data-unit histories vs a from-scratch stream-structure model (differential verdict)",
-    "Exploration: ~8k (quick) / ~166k (thorough) abstract histories (valid skeleton + 0-2 injected defects, or random orderings) over "
+    "Exploration: ~8k (quick) / ~770k (thorough) abstract histories (valid skeleton + 0-2 injected defects, a fragment-focused mode, or random orderings) over "
     "profiles, coding modes, versions 1-4, levels 0/1-7/64-66, offsets correct/zero/wrong, picture-number patterns and fragment shapes are "
     "assembled from individually valid unit blobs and the validator's accept/reject verdict must equal an independent model's; any "
     "non-ConformanceError is a violation. Both verdict directions are checked, so a rule that is dropped, weakened or over-strict shows up.",
     "Trusts the harness' stream model (oracles/stream_model.py, hand-translated level patterns) and a permissive level-constraint column "
     "appended in-process; unit blobs come from the encoder of the tree under test (C03 judges them).")
 add("C02", "structure-aware mutation fuzzing (byte-, bit-field-, field- and unit-level) + coverage-guided fuzzing (atheris) with exception bucketing",
-    "Exploration: ~30k (quick) / ~380k generated + ~640k coverage-guided (thorough) byte strings derived from 25 valid streams by stacked byte mutations, field-aware bit "
-    "splices, description-level field/unit mutations and random data are run through init_io+parse_stream; outcome must be accept, "
+    "Exploration: ~30k (quick) / ~380k generated + ~640k coverage-guided (thorough) byte strings derived from 32 valid streams by stacked byte mutations, field-aware bit "
+    "splices (incl. exp-Golomb values of up to 40000 bits), description-level field/unit mutations, extra padding/auxiliary payload units, re-sized low-delay slices and random data are run through init_io+parse_stream; outcome must be accept, "
     "ConformanceError (whose explain/str/offending_offset/viewer-hint must work) or out-of-scope; crashes are bucketed by root cause.",
     "Size guard (per-field bounds) excludes streams declaring huge pictures. Thorough tier adds 16 coverage-guided libFuzzer jobs (atheris, oracle inside the target, exceptions bucketed) from empty and valid-stream corpora; quick tier is generator-only.")
 add("C03", "generated configurations: encode -> serialise -> validate round trip with format oracle",
@@ -35,7 +35,7 @@ add("C04", "generated configurations: encode -> decode exactness oracle (round t
     "samples must equal the input whenever every slice has qindex 0.",
     "qindex values are read from the encoder's own description.")
 add("C05", "generated configurations: run all decoder test-case generators; conformance + metamorphic content relations",
-    "Exploration: 48 (quick) / ~1.2k (thorough) regular configurations, every registered generator (~55 test cases per configuration): each "
+    "Exploration: 48 (quick) / ~1.2k (thorough) regular configurations (every fourth shard: one large slice of 24x24..48x48 samples), every registered generator (~55 test cases per configuration): each "
     "stream must validate with the configured format, names unique, mid-grey cases exactly mid-grey, numbering cases as documented, "
     "re-encoded-header cases equal to the plain encoding of the same source.",
     "16x16 substitute natural pictures; signal_range only for cheap wavelet/depth classes; D7 is a listed known finding.")
@@ -48,7 +48,7 @@ add("C07", "generated descriptions with explicit/AUTO/omitted fields vs an autof
     "offset, AUTO picture number, AUTO major_version (harness' own version table) and extended-transform-parameter removal is compared with the model.",
     "Output positions come from the repository's Deserialiser; defaults from vc2_default_values.")
 add("C08", "differential: validator's decoded transform data vs harness model fed by the Deserialiser's description",
-    "Exploration: ~1.9k (quick) / ~17k (thorough) conformant streams incl. re-packed extreme/dangling payloads; header values, parameters, "
+    "Exploration: ~1.9k (quick) / ~17k (thorough) conformant streams incl. re-packed extreme/dangling payloads and (a quarter) streams of 2-3 sequences with different formats; header values, parameters, "
     "matrices and every dequantised, DC-predicted coefficient must agree between the two parsers.",
     "Validator state captured by rebinding decoder.stream.picture_decode in-process; harness has its own geometry/dequantiser.")
 add("C09", "generated accepted streams with extreme payloads; validity predicate on every output picture",
@@ -56,12 +56,12 @@ add("C09", "generated accepted streams with extreme payloads; validity predicate
     "the exact dimensions, int samples within depth, coded picture number and there must be one picture per (completed) picture.",
     "Dimensions/depths recomputed by the harness from the deserialised header.")
 add("C10", "metamorphic: concatenation of member streams vs members alone",
-    "Exploration: ~1.9k (quick) / ~30k (thorough) lists of 1-5 member streams (corpus, random configurations, at most one non-conformant delimited "
-    "member); verdict and output pictures of the concatenation must equal the composition of the members' own.",
+    "Exploration: ~1.9k (quick) / ~30k (thorough) lists of 1-5 member streams (corpus, random configurations, at most one non-conformant delimited member: bit-field mutant, over-version, or cut short so that only an end-of-sequence rule fails "
+    "); verdict and output pictures of the concatenation must equal the composition of the members' own.",
     "Member verdicts are the validator's own on each member alone.")
 add("C11", "exhaustive filter-pair x depth enumeration + generated pictures; transform round trip and subband-shape model",
     "Exploration: all 49 filter pairs x 25 depth pairs with several pictures each plus Hypothesis-drawn sizes/contents up to +-2^200; "
-    "pad+dwt+idwt+unpad must be the identity and subband shapes must match the slice geometry and the harness model.",
+    "pad+dwt+idwt+unpad (and forward_wavelet_transform + inverse_wavelet_transform) must be the identity and subband shapes must match the slice geometry and the harness model.",
     "Harness subband model in oracles/slice_geometry.py; padding sample values are not examined.")
 add("C12", "bounded exhaustive enumeration + Hypothesis-generated big integers against a reference quantiser table",
     "Exploration: every qindex 0..255 (1023 thorough) x a dense window of coefficients around each multiple of the quantisation step is "
@@ -105,10 +105,10 @@ add("C19", "generated required-lists x pattern sets vs brute-force reference sea
     "Exploration: required lists x 1-2 generated patterns x depth limits, plus real level/test-case pattern combinations; result must be a sound supersequence of minimal length, impossibility only when the reference finds none. D4 (greedy cut) is a listed known finding with a semantic signature.",
     "Reference enumerates supersequences up to a bound; known-finding signature defined over the greedy-constrained solution space.", ready=True)
 add("C20", "stateful model-based testing of writer/reader op sequences + exhaustive bit strings vs a bit-list model",
-    "Exploration: ~25k op-sequence machines (writer primitives incl. out-of-range values, bounded blocks, seeks) read back by both readers, exhaustive 0-2 byte files x block lengths x read programs on both readers, exp-Golomb length functions to 2^300.",
+    "Exploration: exhaustive in-byte seek-back/overwrite enumeration (506k cases), ~25k op-sequence machines (writer primitives incl. out-of-range values, bounded blocks, seeks) read back by both readers, exhaustive 0-2 byte files x block lengths x read programs on both readers, exp-Golomb length functions to 2^300.",
     "Reader agreement inside blocks only for lengths >= 0; writer seek only in its caller's pattern.")
 add("C21", "generated serdes programs interpreted by a reference interpreter (round trip, missing/unused, reuse)",
-    "Exploration: ~20k (quick) / 800k (thorough) random description programs (primitives, lists, typed subcontexts, bounded blocks, alignment, computed values, data-dependent control flow) with the three oracle parts of DESIGN C21.",
+    "Exploration: ~20k (quick) / 800k (thorough) random description programs (primitives, lists, typed subcontexts, bounded blocks, alignment, computed values, data-dependent control flow) with the three oracle parts of DESIGN C21 plus a non-list value under a list target.",
     "byte_align only outside blocks; blocks not nested.")
 add("C22", "generated regular video formats x every picture generator; validity predicate",
     "Exploration: regular formats over sizes, subsampling, scan/coding modes, signal ranges, colour specs x all synthetic generators: count, numbering, exact sizes, int samples in range.",
